@@ -1,16 +1,227 @@
-//! helpers for building real clients/servers (TLS configs from the crate's own helpers)
+//! real-loopback world: real `Server::listen`, real `Client`, SOCKS5 / HTTP front-ends, TCP/UDP
+//! targets and a counting TCP relay between client and server (one accepted connection = one
+//! TLS session dialled by the client).  Multi-thread runtime, real time; never mixed with the
+//! paused clock.  Waits are on explicit events with generous guards.
 use anytls_rs::client::{Client, SessionPoolConfig};
-use std::sync::Arc;
+use anytls_rs::padding::PaddingFactory;
+use std::net::SocketAddr;
+use std::sync::atomic::{AtomicUsize, Ordering};
+use std::sync::{Arc, Mutex};
+use std::time::Duration;
+use tokio::io::{AsyncReadExt, AsyncWriteExt};
+use tokio::net::{TcpListener, TcpStream};
 use tokio_rustls::rustls::pki_types::ServerName;
 
 /// a Client that is never asked to dial (its pool is pre-seeded by the harness)
 pub fn offline_client() -> Arc<Client> {
-    client_for("127.0.0.1:9", SessionPoolConfig::default(), anytls_rs::padding::PaddingFactory::default())
+    client_for("127.0.0.1:9", SessionPoolConfig::default(), PaddingFactory::default())
 }
 
-pub fn client_for(server_addr: &str, pool: SessionPoolConfig, padding: Arc<anytls_rs::padding::PaddingFactory>) -> Arc<Client> {
+pub fn client_for(server_addr: &str, pool: SessionPoolConfig, padding: Arc<PaddingFactory>) -> Arc<Client> {
+    client_with_password("pw", server_addr, pool, padding)
+}
+
+pub fn client_with_password(pw: &str, server_addr: &str, pool: SessionPoolConfig, padding: Arc<PaddingFactory>) -> Arc<Client> {
     let cfg = anytls_rs::util::tls::create_client_config().expect("client tls config");
     let connector = Arc::new(tokio_rustls::TlsConnector::from(cfg));
     let name = ServerName::IpAddress(std::net::IpAddr::V4(std::net::Ipv4Addr::LOCALHOST).into());
-    Arc::new(Client::with_pool_config("pw", server_addr.to_string(), name, connector, padding, pool))
+    Arc::new(Client::with_pool_config(pw, server_addr.to_string(), name, connector, padding, pool))
+}
+
+pub fn rt() -> tokio::runtime::Runtime {
+    tokio::runtime::Builder::new_multi_thread().worker_threads(4).enable_all().build().unwrap()
+}
+
+pub fn free_port() -> u16 {
+    let l = std::net::TcpListener::bind("127.0.0.1:0").unwrap();
+    l.local_addr().unwrap().port()
+}
+
+pub const GUARD: Duration = Duration::from_secs(10);
+
+/// what a TCP target saw on one accepted connection
+#[derive(Default, Clone, Debug)]
+pub struct Conn { pub bytes: Vec<u8>, pub eof: bool }
+
+pub struct Target {
+    pub addr: SocketAddr,
+    pub conns: Arc<Mutex<Vec<Conn>>>,
+    pub accepted: Arc<AtomicUsize>,
+    task: tokio::task::JoinHandle<()>,
+}
+
+#[derive(Clone, Copy, PartialEq)]
+pub enum Mode { Echo, Sink, Greeter, CloseAfter(usize) }
+
+impl Target {
+    /// a TCP target on `ip`: Echo = send back what arrives; Sink = only record; Greeter = send "HELLO" at
+    /// once, then record; CloseAfter(n) = send n bytes of 0x5a then close
+    pub async fn start(ip: &str, mode: Mode) -> Target {
+        let l = TcpListener::bind(format!("{ip}:0")).await.unwrap();
+        let addr = l.local_addr().unwrap();
+        let conns = Arc::new(Mutex::new(Vec::<Conn>::new()));
+        let accepted = Arc::new(AtomicUsize::new(0));
+        let (c2, a2) = (conns.clone(), accepted.clone());
+        let task = tokio::spawn(async move {
+            loop {
+                let Ok((mut s, _)) = l.accept().await else { break };
+                let idx = { let mut g = c2.lock().unwrap(); g.push(Conn::default()); g.len() - 1 };
+                a2.fetch_add(1, Ordering::SeqCst);
+                let c3 = c2.clone();
+                tokio::spawn(async move {
+                    if mode == Mode::Greeter { let _ = s.write_all(b"HELLO").await; }
+                    if let Mode::CloseAfter(n) = mode { let _ = s.write_all(&vec![0x5a; n]).await; let _ = s.shutdown().await; }
+                    let mut buf = vec![0u8; 65536];
+                    loop {
+                        match s.read(&mut buf).await {
+                            Ok(0) => { c3.lock().unwrap()[idx].eof = true; break; }
+                            Ok(n) => {
+                                c3.lock().unwrap()[idx].bytes.extend_from_slice(&buf[..n]);
+                                if mode == Mode::Echo { if s.write_all(&buf[..n]).await.is_err() { break; } }
+                            }
+                            Err(_) => break,
+                        }
+                    }
+                });
+            }
+        });
+        Target { addr, conns, accepted, task }
+    }
+    pub fn snapshot(&self) -> Vec<Conn> { self.conns.lock().unwrap().clone() }
+}
+impl Drop for Target { fn drop(&mut self) { self.task.abort(); } }
+
+/// counting TCP relay in front of the server
+pub struct Relay { pub addr: SocketAddr, pub accepted: Arc<AtomicUsize>, task: tokio::task::JoinHandle<()> }
+impl Relay {
+    pub async fn start(to: SocketAddr) -> Relay {
+        let l = TcpListener::bind("127.0.0.1:0").await.unwrap();
+        let addr = l.local_addr().unwrap();
+        let accepted = Arc::new(AtomicUsize::new(0));
+        let a2 = accepted.clone();
+        let task = tokio::spawn(async move {
+            loop {
+                let Ok((mut a, _)) = l.accept().await else { break };
+                a2.fetch_add(1, Ordering::SeqCst);
+                tokio::spawn(async move {
+                    let Ok(mut b) = TcpStream::connect(to).await else { return };
+                    let _ = tokio::io::copy_bidirectional(&mut a, &mut b).await;
+                });
+            }
+        });
+        Relay { addr, accepted, task }
+    }
+}
+impl Drop for Relay { fn drop(&mut self) { self.task.abort(); } }
+
+pub struct World {
+    pub server_addr: SocketAddr,
+    pub relay: Relay,
+    pub client: Arc<Client>,
+    pub socks: Option<SocketAddr>,
+    pub http: Option<SocketAddr>,
+    tasks: Vec<tokio::task::JoinHandle<()>>,
+}
+
+async fn wait_listening(addr: SocketAddr) -> bool {
+    for _ in 0..400 {
+        if TcpStream::connect(addr).await.is_ok() { return true; }
+        tokio::time::sleep(Duration::from_millis(5)).await;
+    }
+    false
+}
+
+impl World {
+    /// real server (password "pw", scheme `server_scheme` or the default), relay, client (configured scheme
+    /// `client_scheme` or the default), SOCKS5 and HTTP front-ends
+    pub async fn start(server_scheme: Option<&[u8]>, client_scheme: Option<&[u8]>, pool: SessionPoolConfig, fronts: bool) -> Result<World, String> {
+        let scfg = anytls_rs::util::tls::create_server_config().map_err(|e| e.to_string())?;
+        let acceptor = Arc::new(tokio_rustls::TlsAcceptor::from(scfg));
+        let spad = match server_scheme { Some(s) => Arc::new(PaddingFactory::new(s)?), None => PaddingFactory::default() };
+        let server = Arc::new(anytls_rs::server::Server::new("pw", acceptor, spad, None));
+        let mut tasks = vec![];
+        let mut server_addr = None;
+        for _ in 0..5 {
+            let addr: SocketAddr = format!("127.0.0.1:{}", free_port()).parse().unwrap();
+            let s2 = server.clone();
+            let t = tokio::spawn(async move { let _ = s2.listen(&addr.to_string()).await; });
+            if wait_listening(addr).await { tasks.push(t); server_addr = Some(addr); break; }
+            t.abort();
+        }
+        let server_addr = server_addr.ok_or("server did not start listening")?;
+        let relay = Relay::start(server_addr).await;
+        // the probe connection of wait_listening went to the server directly, not through the relay
+        let cpad = match client_scheme { Some(s) => Arc::new(PaddingFactory::new(s)?), None => PaddingFactory::default() };
+        let client = client_for(&relay.addr.to_string(), pool, cpad);
+        let mut socks = None;
+        let mut http = None;
+        if fronts {
+            for which in 0..2 {
+                let mut ok = None;
+                for _ in 0..5 {
+                    let addr: SocketAddr = format!("127.0.0.1:{}", free_port()).parse().unwrap();
+                    let c2 = client.clone();
+                    let t = tokio::spawn(async move {
+                        if which == 0 { let _ = anytls_rs::client::start_socks5_server(&addr.to_string(), c2).await; }
+                        else { let _ = anytls_rs::client::start_http_proxy_server(&addr.to_string(), c2).await; }
+                    });
+                    if wait_listening(addr).await { tasks.push(t); ok = Some(addr); break; }
+                    t.abort();
+                }
+                let a = ok.ok_or("front-end did not start listening")?;
+                if which == 0 { socks = Some(a); } else { http = Some(a); }
+            }
+            // the probe connections reached the front-ends and were dropped without a request: harmless
+        }
+        Ok(World { server_addr, relay, client, socks, http, tasks })
+    }
+
+    pub async fn stop(self) {
+        self.client.stop_session_pool_cleanup().await;
+        for t in &self.tasks { t.abort(); }
+    }
+}
+
+/// SOCKS5 CONNECT through the front-end; returns the connected stream after the reply, or the reply code
+pub async fn socks_connect(front: SocketAddr, atyp: u8, addr: &[u8], port: u16) -> Result<TcpStream, String> {
+    let mut s = TcpStream::connect(front).await.map_err(|e| e.to_string())?;
+    s.write_all(&[5, 1, 0]).await.map_err(|e| e.to_string())?;
+    let mut r = [0u8; 2];
+    tokio::time::timeout(GUARD, s.read_exact(&mut r)).await.map_err(|_| "guard")?.map_err(|e| e.to_string())?;
+    if r != [5, 0] { return Err(format!("method {:?}", r)); }
+    let mut req = vec![5, 1, 0, atyp];
+    if atyp == 3 { req.push(addr.len() as u8); }
+    req.extend_from_slice(addr);
+    req.extend_from_slice(&port.to_be_bytes());
+    s.write_all(&req).await.map_err(|e| e.to_string())?;
+    let mut rep = [0u8; 10];
+    tokio::time::timeout(Duration::from_secs(40), s.read_exact(&mut rep)).await.map_err(|_| "guard")?.map_err(|e| e.to_string())?;
+    if rep[1] != 0 { return Err(format!("reply {}", rep[1])); }
+    Ok(s)
+}
+
+/// read until `n` bytes arrived, EOF, or the guard
+pub async fn read_n(s: &mut TcpStream, n: usize, guard: Duration) -> (Vec<u8>, bool) {
+    let mut out = vec![];
+    let mut buf = vec![0u8; 65536];
+    let deadline = tokio::time::Instant::now() + guard;
+    while out.len() < n {
+        match tokio::time::timeout_at(deadline, s.read(&mut buf)).await {
+            Err(_) => return (out, false),
+            Ok(Ok(0)) => return (out, true),
+            Ok(Ok(k)) => out.extend_from_slice(&buf[..k]),
+            Ok(Err(_)) => return (out, true),
+        }
+    }
+    (out, false)
+}
+
+/// wait until `cond` holds (polling) or the guard expires
+pub async fn wait_until(guard: Duration, mut cond: impl FnMut() -> bool) -> bool {
+    let deadline = tokio::time::Instant::now() + guard;
+    loop {
+        if cond() { return true; }
+        if tokio::time::Instant::now() >= deadline { return false; }
+        tokio::time::sleep(Duration::from_millis(5)).await;
+    }
 }
